@@ -2,6 +2,7 @@ SPECIFICATION Spec
 CONSTANTS
   KeyOrder <- KO2
   Ctxs <- CtxT3
+  Flows <- SingleFlows
   Calls <- CallsDeep
 INVARIANT GetIsRef
 INVARIANT ContainsIsRef
@@ -20,4 +21,5 @@ INVARIANT DeleteExact
 INVARIANT FuwExact
 INVARIANT OnlyDocumentedExceptions
 PROPERTY QueriesPure
+PROPERTY ElementStateless
 CHECK_DEADLOCK FALSE
